@@ -20,8 +20,10 @@ VARIABLES pc,          \* control point
           m            \* the map the accepted entries describe (history, kept apart from the tree)
 vars == <<pc, pending, tail, lastKey, hasEntries, result, streamOpen, fed, m>>
 
-\* the value stored with key k (opaque to the writer)
-ValOf(k) == 1000 + 7 * k
+\* the value stored with key k (opaque to the writer and the readers); some keys
+\* carry the PDF null object: such a key is present like any other
+NullVal == 0
+ValOf(k) == IF k % 10 = 0 THEN NullVal ELSE 1000 + 7 * k
 
 Init == /\ pc = "add" /\ pending = <<>> /\ tail = <<>> /\ lastKey = 0 /\ hasEntries = FALSE
         /\ result = NoTree /\ fed = <<>> /\ m = << >>
@@ -114,6 +116,13 @@ Enumerates == Accepted => /\ IsRefAll(m, ImplAll(result))
 \* a consumer of All() that stops at its k-th entry gets the first k entries and nothing more
 EarlyExit == Accepted => LET all == [i \in 1..Len(fed) |-> <<fed[i], m[fed[i]]>>]
                          IN \A k \in 1..(Len(fed) + 1) : ImplAllStop(result, k) = RefPrefix(all, k)
+\* a Lookup made from inside the consumer of All() (at any entry, for the current key, a key of
+\* another leaf, the first and the last key, an absent key) does not disturb the enumeration
+Reentrant == Accepted => LET all == [i \in 1..Len(fed) |-> <<fed[i], m[fed[i]]>>]
+                             n == Len(fed)
+                         IN \A at \in 1..n :
+                              \A key \in {fed[at], fed[((at + F) % n) + 1], fed[1], fed[n], fed[at] + 1} :
+                                 ImplAllNested(result, at, key) = all
 ReadersAgree == Accepted => ImplInMemory(result) = m
 EmptyNoTree == Accepted => ((DOMAIN m = {}) <=> (result = NoTree))
 RejectsExactly == /\ (pc = "rejected") => ~RefAccepts(fed)
